@@ -3,6 +3,8 @@ CONSTANTS
   MaxLayout = 2
   MaxFailures = 1
   DrainOnSuccess = FALSE
+  SkipUnchanged = FALSE
+  Strategy = "REPLICA"
   MaxSteps = 16
 VIEW GenView
 ACTION_CONSTRAINT StrataEmit
